@@ -1,5 +1,6 @@
 //! Well-formedness invariants of a Context observed through public getters (shared by C11 and C12).
 
+use ciphercore_base::data_types::Type;
 use ciphercore_base::graphs::{Context, Operation};
 
 pub fn es(e: ciphercore_base::errors::Error) -> String {
@@ -87,7 +88,7 @@ pub fn check_context(ctx: &Context) -> Result<(), String> {
             }
             match n.get_type() {
                 Ok(t) => {
-                    if !t.is_valid() {
+                    if !type_ok(&t) || !t.is_valid() {
                         return Err(format!("node ({},{}) has an invalid type {:?}", gi, ni, t));
                     }
                 }
@@ -155,5 +156,39 @@ pub fn layout_matches(t: &ciphercore_base::data_types::Type, v: &ciphercore_base
             layout_matches(ct, cv)?;
         }
         Ok(())
+    }
+}
+
+/// Validity of a type, written from the documentation of `Type::is_valid` (independent of it): every array has a
+/// non-empty shape without zero dimensions whose number of elements fits 64 bits, and the field names of every named
+/// tuple are pairwise distinct; recursively.
+pub fn type_ok(t: &Type) -> bool {
+    match t {
+        Type::Scalar(_) => true,
+        Type::Array(shape, _) => {
+            if shape.is_empty() || shape.iter().any(|d| *d == 0) {
+                return false;
+            }
+            let mut prod: u128 = 1;
+            for d in shape {
+                prod = prod.saturating_mul(*d as u128);
+                if prod > u64::MAX as u128 {
+                    return false;
+                }
+            }
+            true
+        }
+        Type::Vector(_, e) => type_ok(e),
+        Type::Tuple(es) => es.iter().all(|e| type_ok(e)),
+        Type::NamedTuple(es) => {
+            for i in 0..es.len() {
+                for j in 0..i {
+                    if es[i].0 == es[j].0 {
+                        return false;
+                    }
+                }
+            }
+            es.iter().all(|(_, e)| type_ok(e))
+        }
     }
 }
